@@ -429,3 +429,54 @@ Theorem model_is_code_pendulum_instance_date : forall o tz, obj_ok o -> is_dt o 
   glue_pendulum_instance o tz = if is_pdate o then Ok o else Ok (mkgobj 2 (o_wall o) 0 None).
 Proof. exact glue_pendulum_instance_date. Qed.
 Print Assumptions model_is_code_pendulum_instance_date.
+
+(* self - other and other - self (a datetime operand) as WHOLE results of the model: the operand normalisation of the translated __sub__ / __rsub__
+   IS normalise_operand (native naive -> pendulum.naive with fold 1; native aware -> DateTime.instance(tz=UTC) = create in the zone of its tzinfo;
+   a pendulum DateTime unchanged), and the Interval built from it is interval_make (model_is_code_interval_make) *)
+Theorem model_is_code_normalise_operand : forall self other, obj_ok other -> is_dt other = true ->
+  match norm_operand self other with
+  | Ok p => normalise_operand (ep_of other) = Ok (ep_of p) /\ obj_ok p
+  | Raise e => normalise_operand (ep_of other) = Raise e
+  end.
+Proof. exact norm_operand_ep. Qed.
+Print Assumptions model_is_code_normalise_operand.
+
+Theorem model_is_code_dt_sub : forall self other, obj_ok self -> obj_ok other -> is_dt other = true ->
+  dt_sub (ep_of self) (ep_of other) =
+  match norm_operand self other with Ok p => interval_make (ep_of p) (ep_of self) false | Raise e => Raise e end.
+Proof. exact glue_dt_sub_whole. Qed.
+Print Assumptions model_is_code_dt_sub.
+
+Theorem model_is_code_dt_rsub : forall self other, obj_ok self -> obj_ok other -> is_dt other = true ->
+  dt_rsub (ep_of self) (ep_of other) =
+  match norm_operand self other with Ok p => interval_make (ep_of self) (ep_of p) false | Raise e => Raise e end.
+Proof. exact glue_dt_rsub_whole. Qed.
+Print Assumptions model_is_code_dt_rsub.
+
+Theorem model_is_code_dt_sub_delta : forall self other, obj_ok self -> obj_ok other -> is_dt other = true ->
+  glue_DateTime___sub___datetime self other = bind (normalise_operand (ep_of other)) (fun o => interval_new_delta o (ep_of self) false).
+Proof. exact glue_dt_sub_delta. Qed.
+Print Assumptions model_is_code_dt_sub_delta.
+
+Theorem model_is_code_dt_rsub_delta : forall self other, obj_ok self -> obj_ok other -> is_dt other = true ->
+  glue_DateTime___rsub__ self other = bind (normalise_operand (ep_of other)) (fun o => interval_new_delta (ep_of self) o false).
+Proof. exact glue_dt_rsub_delta. Qed.
+Print Assumptions model_is_code_dt_rsub_delta.
+
+(* Interval.__abs__ / __neg__ (ival_abs / ival_neg of the model: Interval(start, end, True) / Interval(end, start, self._absolute)) *)
+Theorem model_is_code_interval_abs : forall g, obj_ok (gv_start g) -> obj_ok (gv_end g) ->
+  glue_Interval___abs___delta g = interval_new_delta (ep_of (gv_start g)) (ep_of (gv_end g)) true.
+Proof. exact glue_interval_abs_model. Qed.
+Print Assumptions model_is_code_interval_abs.
+
+Theorem model_is_code_interval_neg : forall g, obj_ok (gv_start g) -> obj_ok (gv_end g) ->
+  glue_Interval___neg___delta g = interval_new_delta (ep_of (gv_end g)) (ep_of (gv_start g)) (gv_abs g).
+Proof. exact glue_interval_neg_model. Qed.
+Print Assumptions model_is_code_interval_neg.
+
+(* the listed finding neg-absolute-interval, read off the translated code: -i of an ABSOLUTE Interval with start < end has the delta of i itself
+   (absolute is passed on, so __new__'s swap undoes the exchange of the endpoints) *)
+Theorem model_is_code_neg_of_absolute_interval : forall a b, obj_ok a -> obj_ok b -> obj_gt a b = Ok false -> obj_gt b a = Ok true ->
+  glue_Interval___neg___delta (mkgiv a b true) = glue_Interval_new_delta a b true.
+Proof. exact neg_of_absolute_is_not_negated. Qed.
+Print Assumptions model_is_code_neg_of_absolute_interval.
